@@ -3,6 +3,7 @@ C09 — property theorems (relation files).  Only property statements live here;
 specification (`Abs`, `absStep`, `linesOf`, `OneForm`) and helper lemmas are in Lemmas.lean.
 -/
 import Verif.C09.Lemmas
+import Verif.Generated.TablesC09
 
 namespace Verif.C09
 open Verif.Py Verif.Tables
@@ -488,5 +489,97 @@ example :
     (run 10 { tx := some ⟨[['a']], 1⟩, gz := some ⟨[['z']], 5⟩ }
       [⟨false, false, .ok [['b']]⟩, ⟨true, false, .ok [['c']]⟩, ⟨true, true, .ok [['d']]⟩]).read
       = some [['b'], ['c']] := by decide
+
+
+/-! ## Pins: the constants of the anchored code that the hand-written model mirrors
+
+`Generated/TablesC09.lean` is rewritten on every run by `harness/c09.py: tables()` from the live
+`delphin.tsdb`: for every anchored function its literals in source order (strings, numbers,
+`None`/`True`/`False`; `kw=value` for keyword arguments with a literal value; for `_get_paths` and
+`write` also the comparison / boolean operators as `op:…`), without docstrings, annotations and the
+message texts inside `raise` / `warnings.warn`; the default argument values; `SCHEMA_FILENAME`.
+`Generated/Tables.lean` carries `FIELD_DELIMITER`, `TSDB_CODED_ATTRIBUTES`, `TSDB_CORE_FILES`.
+Which model definition hand-codes which of them:
+
+* `c09GetPathsConsts` (`''`, `'.gz'`, `and / or / not / >`): `Rel.useGz` — the `.gz` form is used iff
+  it exists and (plain absent or gz STRICTLY newer); `Rel` has exactly the two forms `name`, `name.gz`.
+* `c09OpenConsts` (`'.gz'`, `mode='rt'`, `newline='\n'` for the gzip AND the plain branch):
+  `Rel.read`, `splitLines` (text split at `\n` only, both forms alike), theorems `text_roundtrip`,
+  `string_value_survives`.
+* `c09WriteConsts` (`append and (gzip or use_gz)`, `'ab'`/`'wb'`, temp file `mode='w+b'`,
+  `suffix='.tmp'`, line terminator `'\n'`, `gzip and tell() != 0`) and the defaults of `write`
+  (`fields=None, append=False, gzip=False, encoding='utf-8'`): `write`, `WReq`, `toText`, `stage`.
+* `c09WriteDatabaseConsts` (`exist_ok=True`, `append=False`, the three `is None` tests) and its defaults
+  (`names=None, schema=None, gzip=False, 'utf-8'`): `DbReq`, `writeOne` (`append := false`), `writeDb`.
+* `c09MakeRecordConsts` (`colmap.get(name, None)`), `c09RemakeRecordsConsts`: `colGet`, `remake`.
+* `c09CleanupFilesConsts` (`''`, `'.gz'`): `cleanup` removes both forms.
+* `c09InitializeDatabaseConsts`, defaults `(files=False)`: `writeSchemaFile` (schema written, relation
+  files of the schema cleared; the harness calls it with the default).
+* `c09ParseSchemaConsts` (the table pattern `^(?P<table>\w.*):$`, the field pattern, the group names,
+  `pop(0)`, the `''` tests): `tableMatch`, `parseFieldLine`, `parseLine`, `parseSchema`.
+* `c09FormatSchemaConsts` (`'\n\n'`, `'{name}:\n{fields}'`, `'\n'`), `c09WriteSchemaConsts` (final `'\n'`,
+  utf-8), `c09ReadSchemaConsts`, `c09SchemaFilename`: `formatSchema`, `fmtTable`, `joinLines`,
+  `writeSchemaFile`, `openSchema`.
+* `c09FieldStrConsts` (`'  '`, `' '`, `'{}# {}'`, `40`): `fmtSField`, `ljust 40`.
+* `c09FieldInitConsts` (`':integer'`, `'-1'`, `''`; key flags) and `codedAttributes`: `Field.default`.
+* `c09SplitConsts` (`rstrip('\n')`), `c09JoinConsts` (`None ↦ ''`), `fieldDelimiter`: `decodeRaw`
+  (`l ++ ['\n']`), `encodeLine`, the driver's `plantLines` (C08 `splitRaw` / `joinRaw`).
+* `c09DatabaseInitConsts`/defaults (`autocast=False`), `c09DatabaseGetitemConsts` (`fields = None` unless
+  autocast), `c09SelectFromConsts`/defaults (`columns=None, cast=False`), `c09RelationInitConsts`:
+  `readRaw` vs `readCast`, and the harness's observation through the default arguments.
+* `coreFiles` is not used by the model; it is pinned because the generators take their relation
+  names from it.
+
+A change to any of them must be followed in the model: this theorem stops checking, which the check
+reports as a broken proof obligation and then searches for a failing input. -/
+theorem c09_pins :
+    c09GetPathsConsts = ["", ".gz", "False", "op:And", "op:Or", "op:Not", "op:Gt", "True"] ∧
+    c09GetPathConsts = [] ∧
+    c09OpenConsts = [".gz", "mode='rt'", "newline='\\n'", "newline='\\n'"] ∧
+    c09WriteConsts = ["op:Is", "None", "utf-8", "op:Not", "op:Is", "None", "op:And", "op:Or", "ab", "wb", "mode='w+b'", "suffix='.tmp'", "\n", "op:And", "op:NotEq", "0", "0"] ∧
+    c09WriteDatabaseConsts = ["None", "None", "None", "exist_ok=True", "append=False"] ∧
+    c09RemakeRecordsConsts = [] ∧
+    c09MakeRecordConsts = ["None"] ∧
+    c09CleanupFilesConsts = ["", ".gz"] ∧
+    c09InitializeDatabaseConsts = ["exist_ok=True"] ∧
+    c09ParseSchemaConsts = ["", "^(?P<table>\\w.*):$", "\\s*(?P<name>\\S+)(\\s+(?P<flags>[^#]+))?(\\s*#\\s*(?P<comment>.*)$)?", "None", "table", "None", "name", "flags", "0", "comment", ""] ∧
+    c09FormatSchemaConsts = ["\n\n", "{name}:\n{fields}", "\n"] ∧
+    c09WriteSchemaConsts = ["\n", "encoding='utf-8'"] ∧
+    c09ReadSchemaConsts = ["encoding='utf-8'"] ∧
+    c09FieldStrConsts = ["  ", " ", "{}# {}", "40"] ∧
+    c09FieldInitConsts = ["False", ":key", ":primary", ":foreign", "True", ":integer", "-1", ""] ∧
+    c09SplitConsts = ["None", "\n"] ∧
+    c09JoinConsts = ["None", ""] ∧
+    c09RelationInitConsts = [] ∧
+    c09DatabaseInitConsts = [] ∧
+    c09DatabaseGetitemConsts = ["None"] ∧
+    c09SelectFromConsts = ["None"] ∧
+    c09Defaults = [
+       ("_get_paths", "None", "None"),
+       ("get_path", "None", "None"),
+       ("open", "(None,)", "None"),
+       ("write", "(None, False, False, 'utf-8')", "None"),
+       ("write_database", "(None, None, False, 'utf-8')", "None"),
+       ("_remake_records", "None", "None"),
+       ("make_record", "None", "None"),
+       ("_cleanup_files", "None", "None"),
+       ("initialize_database", "(False,)", "None"),
+       ("_parse_schema", "None", "None"),
+       ("_format_schema", "None", "None"),
+       ("write_schema", "None", "None"),
+       ("read_schema", "None", "None"),
+       ("Field.__str__", "None", "None"),
+       ("Field.__init__", "(None, None)", "None"),
+       ("split", "(None,)", "None"),
+       ("join", "(None,)", "None"),
+       ("Relation.__init__", "('utf-8',)", "None"),
+       ("Database.__init__", "(False, 'utf-8')", "None"),
+       ("Database.__getitem__", "None", "None"),
+       ("Database.select_from", "(None, False)", "None")] ∧
+    c09SchemaFilename = "relations" ∧
+    fieldDelimiter = '@' ∧
+    codedAttributes = [("i-wf", "1"), ("i-difficulty", "1"), ("polarity", "-1")] ∧
+    coreFiles = ["item", "analysis", "phenomenon", "parameter", "set", "item-phenomenon", "item-set"] := by
+  refine ⟨?_, ?_, ?_, ?_, ?_, ?_, ?_, ?_, ?_, ?_, ?_, ?_, ?_, ?_, ?_, ?_, ?_, ?_, ?_, ?_, ?_, ?_, ?_, ?_, ?_, ?_⟩ <;> rfl
 
 end Verif.C09
